@@ -168,6 +168,7 @@ PROPS = {
     ),
     "C17": dict(
         groups=[("tls", 90, 600)],
+        gen=["settings"],
         exact_lanes=["tls"],
         rule="matrix scheme (ldap/ldaps) x StartTLS x verification disabled x connector (default / custom with the test CA) x server behaviour (StartTLS answer: success, rc 2, rc 53, garbage, close, another message first; certificate: chains to the CA, self-signed, wrong name; handshake completes or aborted; forged cleartext reply appended to the StartTLS response) "
              "against loopback listeners with a native-tls acceptor; the server logs every cleartext and every decrypted LDAP message. quick = strided sample, thorough = whole matrix. non-trivial = distinct case that reached a verdict (not skipped)",
